@@ -180,6 +180,24 @@ def reindex_database(
     error_files = error_file_whitelist.read_text().split("\n")
 
     num_of_updates = 0
+    if cmd.paths:
+        # Only the given paths are reindexed, so we MUST keep what we know
+        # about every other file.
+        file_to_hash = old_file_to_hash | file_to_hash
+    else:
+        # Pages whose files have been deleted (or renamed) since the last time
+        # we indexed them MUST NOT linger in the DB.
+        for zorg_page_name in sorted(set(old_file_to_hash) - set(file_to_hash)):
+            if session.repo.remove_file_by_name(zorg_page_name) is not None:
+                num_of_updates += 1
+                c.zprint(
+                    "REMOVING DELETED FILE",
+                    zorg_page_name,
+                    fg_color=Color.BLACK,
+                    bg_color=Color.YELLOW,
+                )
+                session.commit()
+
     for zorg_page_name, hash_ in file_to_hash.copy().items():
         # If this file has never been indexed OR the file contents have changed
         # since the last time it was indexed.
